@@ -528,6 +528,22 @@ def conversions(chk, wf, rf, w):
         """config['sym'] = config['sym'].SYM_ID"""
         return isinstance(n, ast.Assign) and len(n.targets) == 1 and sub_key(n.targets[0], key) and isinstance(n.value, ast.Attribute) \
             and n.value.attr == idattr and sub_key(n.value.value, key) and A.text(n.value.value.value) == A.text(n.targets[0].value)
+    _id_store0 = id_store
+
+    def id_store(n, key, idattr):
+        if _id_store0(n, key, idattr):
+            return True
+        # config.update(sym=<..>.SYM_ID) / config.update({'sym': <..>.SYM_ID})
+        if isinstance(n, ast.Call) and isinstance(n.func, ast.Attribute) and n.func.attr == "update":
+            for k in n.keywords:
+                if k.arg == key and isinstance(k.value, ast.Attribute) and k.value.attr == idattr:
+                    return True
+            for a_ in n.args:
+                if isinstance(a_, ast.Dict):
+                    for kk, vv in zip(a_.keys, a_.values):
+                        if const_key(kk) == key and isinstance(vv, ast.Attribute) and vv.attr == idattr:
+                            return True
+        return False
     W = list(ast.walk(wf.node))
     Rn = list(ast.walk(rf.node))
     table = [
@@ -1015,11 +1031,12 @@ def dtype_table(chk):
     chk.require(isinstance(dt, ast.Name), "Tensor.from_dict: dtype passed to to_tensor is not a local name")
     recognised = set()
     generic = False
+    inl_ = A.Inliner(fd.node)
     for n in ast.walk(fd.node):
         # dtype = <data>.dtype.name  : every dtype keeps its name
-        if isinstance(n, ast.Assign) and A.text(n.targets[0]) == dt.id and "'data'" in A.text(n.value) and A.text(n.value).replace(" ", "").find(".dtype.name") >= 0:
+        if isinstance(n, ast.Assign) and A.text(n.targets[0]) == dt.id and "'data'" in A.text(inl_.expand(n.value)) and A.text(n.value).replace(" ", "").find(".dtype.name") >= 0:
             generic = True
-        if isinstance(n, ast.Compare) and len(n.ops) == 1 and isinstance(n.ops[0], ast.In) and "'data'" in A.text(n.comparators[0]) and ".dtype" in A.text(n.comparators[0]):
+        if isinstance(n, ast.Compare) and len(n.ops) == 1 and isinstance(n.ops[0], ast.In) and "'data'" in A.text(inl_.expand(n.comparators[0])) and ".dtype" in A.text(n.comparators[0]):
             # what is assigned to the dtype variable under this test?
             cur = n
             while cur in par and not isinstance(cur, ast.If):
